@@ -174,7 +174,7 @@ def h_index(kind_y, kind_x):
             assume(s_.stop <= n_)
     y0, cy = pysel(sy.start, sy.stop, ny)
     x0, cx = pysel(sx.start, sx.stop, nx)
-    assume(And(cy >= 1, cx >= 1))  # non-empty crop
+    # empty selections included: a reversed or empty slice gives an empty GeoBox (never a negative shape)
     g2 = g[sy, sx]
     prove("shape", And(g2.shape.y == cy, g2.shape.x == cx))
     eq_pt("pixel_maps", g2.pix2wld(i, j), g.pix2wld(i + x0, j + y0))
